@@ -186,7 +186,7 @@ def run(ctx: Ctx) -> None:
 
     from . import c08, c19
 
-    c08.run(Alias(ctx, "C02.R10", "serialised bytes are written to the transport and drained under the send lock in both workers (C08.R5)", only={"C08.R5"}))
+    c08.run(Alias(ctx, "C02.R10", "serialised bytes are written to the transport and drained under the send lock in both workers (C08.R5); on HTTP/2 the end of the body waits until the stream's buffer - and with it END_STREAM - has been sent (C08.R6)", only={"C08.R5", "C08.R6"}))
     c19.run(Alias(ctx, "C02.R7b", "the server's own headers are date (RFC 7231 date of now), server and alt-svc, exactly under their switches, in that order (C19.R6)", only={"C19.R6"}))
     ctx.assume("not decided: that h11/h2 serialise those events into bytes a client parses back identically; chunked vs content-length framing chosen inside h11; byte-level flow control (C09)")
     from . import typestate_rules
